@@ -185,6 +185,12 @@ def capacity_scenario(rng: random.Random, i: int) -> dict:
         actors.append([['sleep', rng.choice(SHORT)], ['many', 1, target, rng.choice([20, 60])], ['disp', 0, 0, 'await', 0, {}]])
     if rng.random() < 0.3:
         actors.append([['sleep', rng.choice([0.05, 0.3])], ['stop', target, rng.choice([None, 0])], ['disp', 1, target, 'fire', 0, {}], ['many', 1, target, 3]])
+    if rng.random() < 0.5:
+        # caller-supplied events whose path already names the bus (replayed from a log), and re-dispatch of a rejected / accepted event
+        actors.append([['sleep', rng.choice([0, 0.05, 0.5])], ['disp', 1, target, rng.choice(['fire', 'await']), rng.choice(SHORT), {'prepath': [target]}],
+                       ['disp', 2 if len(hs) > 2 else 1, target, 'await', 0, {'prepath': [target] + ([0] if target else [])}], ['redisp', 0, target], ['sleep', 1.0], ['redisp_rejected', target]])
+    actors[0].append(['sleep', 1.5])
+    actors[0].append(['redisp_rejected', target])
     return {'seed': rng.randrange(1 << 30), 'buses': buses, 'fwd': [], 'handlers': hs, 'actors': actors, 'no_idle_probe': False}
 
 
@@ -261,7 +267,8 @@ def cancel_derive(sc: dict, t: float, rng: random.Random):
 
 def timeout_base(rng: random.Random, i: int) -> dict:
     """parent -> child -> grandchild shapes, fire/await mixes, several handlers per event, one later event."""
-    c = cfg(nb=(1, 2), levels=4, p_lazy=0.0, p_raise=0.08, p_retexc=0.03, p_busy=0.0, p_bus=0.0, p_sync=0.1, p_wild=0.0, prog_len=(1, 4), handlers_per=(1, 1, 2), n_actors=(1, 1), actor_ops=(1, 1), jitter=False, p_strpat=0.0)
+    c = cfg(nb=(1, 2), levels=4, p_lazy=0.0, p_raise=0.08, p_retexc=0.03, p_busy=0.0, p_bus=0.0, p_sync=0.1, p_wild=0.0, prog_len=(1, 4), handlers_per=(1, 1, 2), n_actors=(1, 1), actor_ops=(1, 1), jitter=False, p_strpat=0.0,
+            p_par=0.2, exc_kinds=EXCS + ['TimeoutError', 'TimeoutError', 'TimeoutError'])
     sc = random_scenario(rng, c)
     nb = len(sc['buses'])
     for h in sc['handlers']:
@@ -502,7 +509,7 @@ def shapes_scenario(rng: random.Random, i: int) -> dict:
     """Registration and await SHAPES: one function object registered on two buses / under two patterns / twice; bound methods;
     a child awaited twice, awaited by a sibling handler that did not dispatch it, dispatched to two buses; an actor awaiting
     another actor's event; zero-handler events."""
-    sc = random_scenario(rng, cfg(nb=(1, 3), p_par=0.35, p_lazy=0.2, levels=4, p_idle=0.05, p_wild=0.1, p_redisp=0.03, p_actor_redisp=0.05, modes=['fire', 'await', 'await', 'later', 'await2']))
+    sc = random_scenario(rng, cfg(nb=(1, 3), p_par=0.35, p_lazy=0.2, levels=4, p_idle=0.05, p_wild=0.1, p_redisp=0.03, p_actor_redisp=0.05, modes=['fire', 'await', 'await', 'later', 'await2'], p_fwd=0.35))
     nb = len(sc['buses'])
     hs = sc['handlers']
     n0 = len(hs)
@@ -537,6 +544,15 @@ def shapes_scenario(rng: random.Random, i: int) -> dict:
     if nb > 1 and rng.random() < 0.4:
         b = rng.randrange(nb)
         hs.append({'bus': b, 'pat': 1, 'kind': rng.choice(['async', 'sync']), 'prog': [['disp', 3, b, 'fire', None, {'also': rng.choice([x for x in range(nb) if x != b])}]]})
+    # explicit event_parent_id equal to the id of the event being handled
+    for h in hs:
+        for op in h['prog']:
+            if op[0] == 'disp' and rng.random() < 0.12 and not (op[5] or {}).get('parent'):
+                op[5] = dict(op[5] or {}, parent='self')
+    # a handler awaiting an event that top-level code dispatched (not part of the handler's own tree)
+    if sc['actors'] and rng.random() < 0.5:
+        a = rng.randrange(len(sc['actors']))
+        hs.append({'bus': rng.randrange(nb), 'pat': rng.choice([0, 1]), 'kind': 'async', 'prog': [['sleep', rng.choice([0, 0, 0.001, 0.05])], ['await_actor', a, rng.randrange(3)]]})
     # an actor awaiting another actor's events
     na = len(sc['actors'])
     if na > 1 and rng.random() < 0.6:
